@@ -262,6 +262,9 @@ pub fn run(ctx: &Ctx) {
     run_regress(ctx, SUBS);
     drive_enum(ctx, &SUBS[0], sweep::cases().len() as u64);
     drive_random(ctx, &SUBS[1], ctx.n(40_000, 2_000_000), 1600);
+    if !ctx.quick() && !ctx.failed() {
+        crate::fuzzing::drive_fuzz(ctx, "modules", 1_000_000);
+    }
 }
 
 pub fn finish(ctx: &Ctx) -> i32 {
